@@ -53,9 +53,16 @@ def gen_doc(rng, tag, ctx):
 
 def cases(ctx):
     rng = ctx.rng('c10')
-    for i in range(ctx.budget(100, 5000)):
+    for i in range(ctx.budget(160, 5000)):
         ndocs = rng.randrange(3, 6)
         ds = [gen_doc(rng, f'Q{ctx.shard}.{i}.{k}', ctx) for k in range(ndocs)]
+        if i % 4 == 0:
+            # one reader object, several SCC documents: decoder state must not survive a read
+            ds = []
+            for k in range(ndocs):
+                lines, _ = sccprog.encode_popon(sccprog.gen_popon(rng, ncaps=rng.choice([1, 2])))
+                ds.append({'format': 'scc', 'doc': sccprog.scc_doc(lines), 'reader_kwargs': {}, 'read_kwargs': {},
+                           'nlang': 1})
         # a second document of a format already present, so that reader reuse sees two different inputs
         f0 = ds[0]['format']
         for _ in range(20):
